@@ -1,9 +1,64 @@
-import Oracle.Proto
-namespace Oracle.C08
+/-
+  Oracle.C08 — what the Lean model (Model.Flags, the definitions Props/C08.lean is about) predicts
+  for a call of a registered Go function in a chain of nested contexts, using the flags table
+  REGENERATED from /repo (Generated.Compliance).
 
-/-- placeholder: the oracle driver for C08 is not built yet -/
+  stdin lines:   q <goSymbol[*]> <luaNameHex> <F1,F2,...> [hint]   (flags required by each nested callcontext, outermost
+                 first, each optionally followed by c/m/t for the hard limits it sets; hint = flags of the object in hand, used only to choose between several table entries)
+  stdout lines:  pass <declared> | refuse <missingMask> <declared> | unknown | ambiguous | bad-line
+-/
+import Oracle.Proto
+import GoluaVerif.Model.Flags
+import GoluaVerif.Generated.Compliance
+namespace Oracle.C08
+open GoluaVerif.Model.Flags GoluaVerif.Generated
+
+def hexToString (h : String) : Option String :=
+  (Oracle.parseHexBytes h).bind fun b => String.fromUTF8? b
+
+/-- a trailing `*` in the symbol asks for a prefix match (closures of a factory that the Go compiler
+    inlined into `init` carry a counter of `init`, not of the factory) -/
+def symMatches (pat sym : String) : Bool :=
+  if pat.endsWith "*" then (pat.dropEnd 1).toString.isPrefixOf sym else pat == sym
+
+/-- one nested context: `<flags>` followed by letters for the hard limits it sets (c = cpu, m = memory, t = time) -/
+def parseDef (tok : String) : Option CtxDef :=
+  let digits := tok.takeWhile Char.isDigit |>.toString
+  let letters := tok.dropWhile Char.isDigit |>.toString
+  digits.toNat?.map fun f =>
+    { flags := f, cpuLimit := letters.contains 'c', memLimit := letters.contains 'm', timeLimit := letters.contains 't' }
+
+def lookup (sym name : String) : List Nat :=
+  (Compliance.regs.filter fun r => symMatches sym r.sym && r.luaName == name).map (·.flags) |>.eraseDups
+
+def answer (line : String) : String :=
+  match line.splitOn " " with
+  | "q" :: sym :: nameHex :: fs :: rest =>
+    match hexToString nameHex with
+    | none => "bad-line"
+    | some name =>
+      let chain := (fs.splitOn ",").filterMap parseDef
+      let predict (declared : Nat) : String :=
+        let ctx := pushAll root chain
+        if refused ctx.required declared then
+          s!"refuse {missing ctx.required declared} {declared}"
+        else s!"pass {declared}"
+      match lookup sym name with
+      | [] => "unknown"
+      | [declared] => predict declared
+      | cands =>
+        -- the same Go function registered twice under the same name with different declarations
+        -- (debug.traceback / debuglib.Traceback): the caller says which object it holds
+        match rest.head?.bind String.toNat? with
+        | some hint => if cands.contains hint then predict hint else "ambiguous"
+        | none => "ambiguous"
+  | _ => "bad-line"
+
 def main (_args : List String) : IO UInt32 := do
-  IO.eprintln "oracle mode c08: not built"
-  return 2
+  let stdin ← IO.getStdin
+  let stdout ← IO.getStdout
+  Oracle.forEachLine stdin fun line => stdout.putStrLn (answer line)
+  stdout.flush
+  return 0
 
 end Oracle.C08
